@@ -142,3 +142,78 @@ func VerifC07CallSiteFlags() {
 	rt.Assert(rt.Implies(vC09LastRun.delivered > 0, vC09LastRun.faulty), "a delivered error marks the module as faulty")
 	rt.Assert(rt.Implies(vC09LastRun.faulty, vC09LastRun.delivered > 0), "a module is faulty only if an error diagnostic was delivered (speculative trials leave no trace)")
 }
+
+// verifC07ParseFlags: the whole frontend on every source of n bytes: the module is marked
+// faulty exactly when an error-level diagnostic was delivered.
+func verifC07ParseFlags(n int) {
+	src := rt.Bytes("src", n)
+	errors := 0
+	mod, err := Parse(Options{FileName: "x.ddp", Source: src, ErrorHandler: func(e ddperror.Error) {
+		if e.Level == ddperror.LEVEL_ERROR {
+			errors++
+		}
+	}})
+	if err != nil || mod == nil || mod.Ast == nil {
+		return // refused sources (invalid UTF-8) and internal crashes are C03's matter
+	}
+	rt.Assert(rt.Implies(errors > 0, mod.Ast.Faulty), "a delivered error marks the module as faulty")
+	rt.Assert(rt.Implies(mod.Ast.Faulty, errors > 0), "a module is faulty only if an error diagnostic was delivered")
+}
+
+func VerifC07ParseFlags1() { verifC07ParseFlags(1) }
+func VerifC07ParseFlags2() { verifC07ParseFlags(2) }
+func VerifC07ParseFlags3() { verifC07ParseFlags(3) }
+
+// every expression syntax of the language, over Zahl variables a b c, Wahrheitswerte u v, a Text t
+// and a Zahlen Liste l
+var vC07Exprs = []string{
+	"a plus b", "a minus b", "a mal b", "a durch b", "a modulo b", "a hoch b", "-a", "der Betrag von a",
+	"der Logarithmus von a zur Basis b", "die b. Wurzel von a", "a um b Bit nach links verschoben", "a um b Bit nach rechts verschoben",
+	"a logisch und b", "a logisch oder b", "a logisch kontra b", "logisch nicht a",
+	"a gleich b ist", "a ungleich b ist", "a kleiner als b ist", "a größer als b ist", "a kleiner als, oder b ist", "a größer als, oder b ist", "a zwischen b und c ist",
+	"u und v", "u oder v", "entweder u, oder v", "nicht u", "a, falls u, ansonsten b",
+	"die Länge von t", "t an der Stelle a", "t im Bereich von a bis b", "t ab dem a. Element", "t bis zum a. Element", "t verkettet mit t",
+	"die Länge von l", "l an der Stelle a", "l im Bereich von a bis b", "l verkettet mit a",
+	"die Größe von einer Zahl", "der Standardwert von einer Zahl", "a als Kommazahl", "(a plus b)", "wahr", "1,5", "'c'", "a plus b mal c",
+}
+
+// VerifC07ExprRanges: an expression of every syntactic form is used where its type does not fit
+// (initial value of a list of lists), so that a diagnostic about the whole expression is due; every
+// delivered diagnostic has an ordered range inside the text.
+func VerifC07ExprRanges() {
+	expr := vC07Exprs[rt.Choose("form", len(vC07Exprs))]
+	pre := "Die Zahl a ist 1.\nDie Zahl b ist 2.\nDie Zahl c ist 3.\nDer Wahrheitswert u ist wahr.\nDer Wahrheitswert v ist falsch.\nDer Text t ist \"xy\".\nDie Zahlen Liste l ist eine Liste, die aus 1, 2 besteht.\n"
+	stmt := "Die Text Liste q ist " + expr + ".\n"
+	if rt.Bool("assignment") {
+		pre += "Die Text Liste q ist eine leere Text Liste.\n"
+		stmt = "Speichere " + expr + " in q.\n"
+	}
+	src := pre + stmt
+	var lineLen []int
+	n := 0
+	for _, r := range src {
+		if r == '\n' {
+			lineLen = append(lineLen, n)
+			n = 0
+		} else {
+			n++
+		}
+	}
+	lineLen = append(lineLen, n)
+	var diags []ddperror.Error
+	_, err := Parse(Options{FileName: "/m/x.ddp", Source: []byte(src), ErrorHandler: func(e ddperror.Error) { diags = append(diags, e) }})
+	if err != nil {
+		_, crashed := err.(*ParserError)
+		rt.Assert(!crashed, "the frontend does not crash internally (ParserError)")
+		return
+	}
+	rt.Assert(len(diags) > 0, "a value of a wrong type is reported")
+	for _, e := range diags {
+		s, t := e.Range.Start, e.Range.End
+		rt.Assert(!t.IsBefore(s), "diagnostic range is ordered")
+		inside := func(p token.Position) bool {
+			return p.Line >= 1 && int(p.Line) <= len(lineLen) && p.Column >= 1 && int(p.Column) <= lineLen[p.Line-1]+2
+		}
+		rt.Assert(inside(s) && inside(t), "diagnostic range lies inside the text of the file it names")
+	}
+}
